@@ -1357,7 +1357,8 @@ func (g *Gen) unitExpr(sc *scope, d int) Expr {
 		if _, isIf := e.Then.Result.(*If); !isIf && g.R.Chance(0.35) {
 			// often the then branch ends with a ONE-LINE else-less if: the else below is the outer one's
 			e.Then.Stmts = append(e.Then.Stmts, &ExprStmt{e.Then.Result})
-			e.Then.Result = &If{Cond: g.expr(TBool, sc, 1, true), Then: ExprBlock(call("trace", &StrLit{g.tag()})), OneLine: true}
+			// (a closed condition: the branch's own block may have shadowed any outer name with another type)
+			e.Then.Result = &If{Cond: &BinOp{core.Pick(g.R, []string{"<", ">", "=", "<>"}), &IntLit{V: g.R.Intn(3)}, &IntLit{V: g.R.Intn(3)}}, Then: ExprBlock(call("trace", &StrLit{g.tag()})), OneLine: true}
 			g.feat("one-line-else-less-if-before-else")
 		}
 		for g.R.Chance(0.3) && len(e.Elifs) < 2 {
